@@ -1120,3 +1120,22 @@ def swallowing_handlers(ctx: Ctx, entry: FuncInfo, targets: set[str]
                 if not isinstance(last, ast.Raise):
                     bad.append((fi, h))
     return bad, n_try
+
+
+def borrow(rep: "Report", ctx: "Ctx", mod: Any, prop: str, from_rule: str,
+           to_rule: str) -> int:
+    """Evaluate ``from_rule`` of another property's check and register its
+    obligations under ``to_rule`` of this report (an obligation that is a
+    necessary condition of two properties is decided once and reported by
+    both checks)."""
+    from ..core import Report as _R
+    sub = _R(prop, ctx.index)
+    mod.check(sub, ctx)
+    n = 0
+    for o in sub.obligations:
+        if o.rule == from_rule:
+            o.rule = to_rule
+            rep.obligations.append(o)
+            n += 1
+    rep.funcs_seen |= sub.funcs_seen
+    return n
